@@ -582,13 +582,12 @@ def opXf : P String := do
     match t with
     | [] => pure (showOut (.ok []))
     | hdr :: rows =>
-      let shdr := hdr.mergeSort strLe
+      -- `sorted(hdr, reverse=rev)`: descending order keeps equal names in their original order, too
+      let shdr := if rev then hdr.mergeSort (fun a b => strLe b a) else hdr.mergeSort strLe
       let spec := shdr.filterMap (fun c => match c with | .str s => some (FSpec.name s) | _ => none)
       match asindices hdr spec with
       | .error e => pure (showOut (.fail [] e))
-      | .ok idx =>
-        let _ := rev
-        pure (showOut (.ok (shdr :: pickRows idx m rows)))
+      | .ok idx => pure (showOut (.ok (shdr :: pickRows idx m rows)))
   | "movefield" => do
     let f ← pVal; let i ← pInt; let m ← pVal; let t ← pTable
     let hdr := t.headD []
